@@ -137,9 +137,33 @@ pub open spec fn last_annotation(attrs: Seq<AttrSpec>) -> Option<u64>
     }
 }
 
+// C16: a managed statement consists of its name and a default reject action - nothing else (comments aside)
+pub open spec fn allowed_body_item(it: Item) -> bool {
+    match it {
+        Item::Ev(ResolveResult::Bound(ns), Event::Start(tag)) => ns == XNM && (name_id(tag.lname@) == NameId::Name || name_id(tag.lname@) == NameId::Then),
+        Item::Ev(ResolveResult::Bound(ns), Event::Empty(tag)) => ns == XNM && name_id(tag.lname@) == NameId::Reject,
+        Item::Ev(_, Event::Start(_)) => false,
+        Item::Ev(_, Event::Empty(_)) => false,
+        Item::Ev(_, Event::Text(_)) => false,
+        Item::Ev(_, Event::CData(_)) => false,
+        Item::Ev(_, _) => true,          // comments, end tags
+        Item::TextOf(_) => true,         // the text of <name>
+        _ => false,
+    }
+}
+pub open spec fn only_allowed(s: Seq<Item>) -> bool { forall|i: int| 0 <= i < s.len() ==> allowed_body_item(#[trigger] s[i]) }
+pub broadcast proof fn lemma_only_allowed_push(s: Seq<Item>, it: Item)
+    ensures #[trigger] only_allowed(s.push(it)) == (only_allowed(s) && allowed_body_item(it)),
+{
+    if only_allowed(s.push(it)) {
+        assert forall|i: int| 0 <= i < s.len() implies allowed_body_item(#[trigger] s[i]) by { assert(s.push(it)[i] == s[i]); }
+        assert(s.push(it)[s.len() as int] == it);
+    }
+}
+
 pub mod fetch {
 use super::*;
-broadcast use xml_log_lemmas;
+broadcast use {xml_log_lemmas, lemma_only_allowed_push};
 
 pub proof fn lemma_last_annotation_step(attrs: Seq<AttrSpec>, k: int)
     requires 0 <= k < attrs.len(),
@@ -169,6 +193,8 @@ impl Maybe<Candidate> {
             &&& last_annotation(attrs) is None ==> sel is None                                        // OBL:C16.unannotated_never_selected
             // a selected statement carries exactly the expression of the annotation in force
             &&& (sel matches Some(nc) ==> last_annotation(attrs) == Some(nc.1.filter_expr.id))        // OBL:C16.expression_is_the_configured_one
+            // a selected statement has no other content than its name and the default reject action
+            &&& (sel is Some ==> is_prefix(old(reader).log@, final(reader).log@) && only_allowed(seg_of(old(reader).log@, final(reader).log@)))   // OBL:C16.no_other_content
         },
         // C03: a statement that is still marked as managed (it carries the bgpfu-fltr: prefix) must stay known to the agent even
         // if its expression does not parse - otherwise compare() takes the installed policy for "no longer managed" and deletes it
@@ -185,10 +211,12 @@ impl Maybe<Candidate> {
 //@loop 2
             invariant
                 reader.remaining@.len() <= old(reader).remaining@.len(),
+                is_prefix(old(reader).log@, reader.log@), only_allowed(seg_of(old(reader).log@, reader.log@)),   // OBL:C16.body.only_name_and_reject
             decreases reader.remaining@.len(),                                                        // OBL:C14.candidate.body_loop_terminates
 //@loop 3
                         invariant
                             reader.remaining@.len() <= rem_at_then,
+                            is_prefix(old(reader).log@, reader.log@), only_allowed(seg_of(old(reader).log@, reader.log@)),   // OBL:C16.body.only_reject_in_then
                         decreases reader.remaining@.len(),                                            // OBL:C14.candidate.then_loop_terminates
 //@before /let end = tag\.to_end\(\);/
                     let ghost rem_at_then = reader.remaining@.len();
